@@ -13,6 +13,12 @@ MC_Menu == <<
   << <<"op", <<S(1)>>, "transpose">>, <<"op", <<Lc(1), S(2)>>, "concat">>, <<"op", <<Lc(2)>>, "softmax">>, <<"op", <<S(1)>>, "fc">>, <<"op", <<Lc(4), S(2)>>, "bce">>, <<"op", <<S(2)>>, "slice">> >>,  \* shape ops, a SHARED layer object, a loss
   << <<"leaf", TRUE>>, <<"op", <<Lc(1), S(2)>>, "elmax">>, <<"op", <<Lc(2), S(2)>>, "concat">>, <<"bp", Lc(3)>> >>   \* the shared untracked tensor as a DIRECT operand of back-propagated operations
 >>
+(* two more forward programs over the remaining operation families (contraction, data movement, reductions, losses) *)
+MC_MenuMore == <<
+  << <<"op", <<S(1), S(2)>>, "dot">>, <<"op", <<S(1)>>, "reshape">>, <<"op", <<S(2)>>, "broadcast">>, <<"op", <<S(1), S(3)>>, "patch">>, <<"op", <<S(1)>>, "varalong">>, <<"op", <<S(1)>>, "tanh">> >>,
+  << <<"op", <<S(1)>>, "pow">>, <<"op", <<Lc(1), S(2)>>, "div">>, <<"op", <<S(1)>>, "leakyrelu">>, <<"op", <<S(1), S(3)>>, "ce">>, <<"op", <<S(3)>>, "maxalong">>, <<"op", <<S(1), S(3)>>, "sub">> >>
+>>
+MC_Menu8 == MC_Menu \o MC_MenuMore
 (* the same plus a program that violates the proviso (back-propagates through the shared parameter) *)
 MC_MenuBad == MC_Menu \o << << <<"op", <<S(1), S(2)>>, "mul">>, <<"bp", Lc(1)>> >> >>
 
@@ -27,9 +33,9 @@ SeqFoot(p, i, H, L) ==
            w == CASE ins[1] = "bp" -> R(res(ins[2])) [] ins[1] = "reset" -> {res(ins[2])} [] OTHER -> {}
            nxt == SeqRun(<<ins>>, 1, H, L)
        IN <<SetToSeq(w)>> \o SeqFoot(p, i + 1, nxt.H, nxt.L)
-Emit == PrintT(ToJson([menu |-> MC_Menu,
-                       views |-> [m \in DOMAIN MC_Menu |-> SeqView(MC_Menu[m])],
-                       writes |-> [m \in DOMAIN MC_Menu |-> SeqFoot(MC_Menu[m], 1, InitHeap, <<>>)]]))
+Emit == PrintT(ToJson([menu |-> MC_Menu8,
+                       views |-> [m \in DOMAIN MC_Menu8 |-> SeqView(MC_Menu8[m])],
+                       writes |-> [m \in DOMAIN MC_Menu8 |-> SeqFoot(MC_Menu8[m], 1, InitHeap, <<>>)]]))
 ASSUME Emit
 
 DumpFinal == (\A g \in G : ~Running(g)') => PrintT(ToJson([progs |-> prog', views |-> [g \in G |-> LocalView(g)']]))
